@@ -133,6 +133,8 @@ def convert(ctx, x, src, dst):
         return x if x[0] == "int" else ("icast", x, s, d)
     if d == "ArrayVec" and s == "array":
         return ("arrayvec", x)
+    if s == "GenericArray" and d == "array":
+        return x                 # `digest.into()`: the same bytes as a plain array
     if s == "param" or d == "param":
         # generic element conversions inside generic code (Into<G>): affine/projective views
         return x
@@ -919,27 +921,59 @@ def elem_of(shape, uid, start=0):
     return ("elem", uid, start), start + 1
 
 
-def unrollable(shape):
-    """Every leaf of the shape can be indexed at a constant position."""
+def unroll_limit(shape):
+    """Loops over explicit element lists are executed element by element up to 64 elements (they *are* straight-line
+    code); counted loops over ranges / chunkings only when short."""
     k = shape[0]
     if k in ("zip",):
-        return unrollable(shape[1]) and unrollable(shape[2])
+        return max(unroll_limit(shape[1]), unroll_limit(shape[2]))
     if k in ("enumerate", "take"):
-        return unrollable(shape[1])
+        return unroll_limit(shape[1])
     if k == "map":
-        return unrollable(shape[3])
-    # only loops over *literal* collections are unrolled (array literals, in-place fills of local arrays, constant
-    # ranges, fixed-size chunkings); loops over symbolic collections keep their schematic summary even when N is small
+        return unroll_limit(shape[3])
     if k in ("refs", "vals"):
         inner = shape[1]
         while inner[0] in ("box", "copied", "refv"):
             inner = inner[1]
-        return inner[0] in ("array", "repeat")
+        return 64 if inner[0] == "array" else 8
+    if k == "array":
+        return 64
+    return 8
+
+
+def _unroll_info(shape):
+    """(every leaf can be indexed at a constant position, some leaf is a literal collection)."""
+    k = shape[0]
+    if k == "zip":
+        a1, l1 = _unroll_info(shape[1])
+        a2, l2 = _unroll_info(shape[2])
+        return a1 and a2, l1 or l2
+    if k in ("enumerate", "take"):
+        return _unroll_info(shape[1])
+    if k == "map":
+        return _unroll_info(shape[3])
+    if k in ("refs", "vals"):
+        inner = shape[1]
+        while inner[0] in ("box", "copied", "refv"):
+            inner = inner[1]
+        return True, inner[0] in ("array", "repeat")
     if k in ("mutrefs", "chunks", "array"):
-        return True
+        return True, True
     if k == "range":
-        return shape[1][0] == "int" and shape[2][0] == "int"
-    return False
+        lit = shape[1][0] == "int" and shape[2][0] == "int"
+        return lit, lit
+    if k in ("adapter", "repeat_with"):
+        return False, False
+    return False, False
+
+
+def unrollable(shape):
+    """Loops are executed iteration by iteration only when the trip count comes from a *literal* collection (array
+    literal, in-place fill of a local array, constant range, fixed-size chunking) and every other zipped leaf can be
+    indexed at a constant position; loops over purely symbolic collections keep their schematic summary even when N
+    is small."""
+    allx, lit = _unroll_info(shape)
+    return allx and lit
 
 
 def is_stream(shape):
@@ -1025,6 +1059,13 @@ def vec_len(eng, v):
         return v[4] if len(v) > 4 else None
     if v[0] == "arrayvec":
         return vec_len(eng, v[1])
+    if v[0] == "slice_of" and v[2][0] == "int":
+        if v[3][0] == "int":
+            return v[3][1] - v[2][1]
+        if v[3] == ("end",):
+            whole = vec_len(eng, v[1])
+            if isinstance(whole, int):
+                return whole - v[2][1]
     n = eng.lens.get(v)
     return n
 
@@ -1165,7 +1206,7 @@ def closure_loop(ctx, shape, body_fn, early_fn=None):
     stops early; returns (uid or None, last body result)."""
     eng, st = ctx.eng, ctx.st
     n = shape_len(eng, shape)
-    if isinstance(n, int) and n <= 8 and unrollable(shape) and early_fn is None:
+    if isinstance(n, int) and n <= unroll_limit(shape) and unrollable(shape) and early_fn is None:
         puid = next(eng.nuid)
         r = None
         for kk in range(n):
@@ -1315,7 +1356,7 @@ def m_any_all(ctx, args):
     shape = a[1]
     n = shape_len(eng, shape)
     is_all = ctx.oq.endswith("::all")
-    if isinstance(n, int) and n <= 8 and unrollable(shape):
+    if isinstance(n, int) and n <= unroll_limit(shape) and unrollable(shape):
         # literal collection: plain disjunction / conjunction
         acc = 0
         puid = next(eng.nuid)
